@@ -95,10 +95,34 @@ def cover_min(columns, demands):
 # ------------------------------------------------------------------------------------------- generation
 
 
+def gen_plain_fixed_pool(rng):
+    """One run in eight: solve_bp over a fixed pool of rich columns with a pricing function that offers nothing
+    more, fault-free only.  Every node LP is exact, so the whole branch-and-bound proof logic (bounds, branching,
+    early returns) is on the line in each case."""
+    m = rng.randrange(2, 5)
+    demands = [rng.randrange(0, 7) for _ in range(m)]
+    pool = []
+    for _ in range(rng.randrange(1, 9)):
+        c = [rng.choice([0, 0, 1, 1, 2, 3, 5]) for _ in range(m)]
+        if any(c) and c not in pool:
+            pool.append(c)
+    for j in range(m):
+        if not any(c[j] for c in pool):
+            c = [0] * m
+            c[j] = rng.choice([1, 2, 3])
+            pool.append(c)
+    return {"solver": "bp", "interval": 1, "mode": "custom", "demands": demands, "universe": pool, "initial": [list(c) for c in pool],
+            "peer": "fixed_pool", "max_nodes": 200, "max_iter": None, "gap_tol": None, "seq_as": "list",
+            "faults": {"cancel": False, "time_limit": None, "cut_iter": False, "cut_nodes": False, "sample": 1},
+            "clock": {"t0": 0.0, "per_eval": 0.01, "per_read": 0.0, "events": {}}}
+
+
 def generate(rng, tier):
     big = tier == "thorough"
+    if rng.random() < 0.12:
+        return gen_plain_fixed_pool(rng)
     case = {"solver": rng.choice(["cg", "bp"]), "interval": rng.choice([1, 1, 1, 2, 3])}
-    if rng.random() < (0.7 if case["solver"] == "cg" else 0.35):
+    if rng.random() < (0.6 if case["solver"] == "cg" else 0.35):
         W = rng.randrange(5, 31)
         n = rng.randrange(1, 6 if big else 5)
         sizes = [rng.randrange(1, W + 1) for _ in range(n)]
@@ -117,6 +141,11 @@ def generate(rng, tier):
         extra = []
         for _ in range(rng.randrange(0, 8)):
             extra.append([rng.choice([0, 0, 1, 1, 2, 3]) for _ in range(m)])
+        if rng.random() < 0.2 and any(demands):
+            # a jumbo column covering all or half of the demand next to the small ones: the LP value can drop a lot in
+            # one pricing round, so a bound derived from a *modest* reduced cost proves nothing
+            k = rng.choice([1, 1, 2])
+            extra.insert(rng.randrange(len(extra) + 1), [-(-d // k) for d in demands])
         extra = [c for c in extra if any(c)]
         init = [list(u) for u in units]
         for c in extra:
@@ -148,7 +177,7 @@ def generate(rng, tier):
             if not init or not uni:
                 uni, init = units + extra, [list(u) for u in units]
         case.update({"mode": "custom", "demands": demands, "universe": uni, "initial": init,
-                     "peer": rng.choice(["best", "best", "first_improving", "worst_improving", "always_best"])})
+                     "peer": rng.choice(["best", "best", "first_improving", "first_improving", "worst_improving", "worst_improving", "always_best"])})
     if case["mode"] == "custom" and case["solver"] == "bp" and rng.random() < 0.3:
         # a fixed pool of rich columns, handed over completely, with a pricing function that offers nothing more:
         # every node LP is exact, so every OPTIMAL is a claimed proof; deep trees with integer nodes next to open siblings
